@@ -72,6 +72,8 @@ def parse (img : Bytes) (f : PeFacts) : Outcome Parsed :=
   let restLen := img.length - sum           -- io.Copy of everything from SUM on
   if restLen < f.ddSize then .err else      -- binaryRest < 0 (repaired: was a Truncate panic)
   if img.length < sum then .err else        -- headers and sections exceed the file size (F18 repair)
+  -- the certificate table has to be the 8-aligned tail of the file (F22 repair)
+  if f.ddSize ≠ 0 ∧ (f.ddVA % 8 ≠ 0 ∨ f.ddVA + f.ddSize ≠ img.length) then .err else
   let binaryRest := restLen - f.ddSize
   let fileSize := sum + restLen
   let pad := pad8 fileSize
